@@ -340,7 +340,7 @@ Definition ecdsa_point_ok (pk : cosemap) : bool :=
   let c := ecdsa_crv (key_alg pk) in
   let x := get_bytes_ pk (-2) in
   match lookup pk (ilabel (-3)) with
-  | Some (VBytes (_ :: _ as y)) => ec_on_curve C c (os2ip x) (os2ip y)
+  | Some (VBytes ((_ :: _) as y)) => ec_on_curve C c (os2ip x) (os2ip y)
   | Some (VBytes []) => false      (* unreachable after CheckKey (length 1..66 required) *)
   | _ =>
       (* y is not a byte string: `y == nil`, so the boolean form is tried (an absent label reads as false) *)
